@@ -389,8 +389,18 @@ class L:
                 hyps.append(z(S_) <= (p - 1) * (p - 1))
             res_r.functions = res_v.functions = sorted(ex.funcs_seen)
             npaths, status_r, status_v, det_v = 0, 'proved', 'proved', []
+            H0 = None
             bad_models = []
             canary_ok = False
+            # pass 1: range goal and a quick direct attempt at the value goal on every path; pass 2: the paths still
+            # open are decided by the staged proof (through the un-subtracted result H of a proven path), and only
+            # then by the direct goal with the long budget
+            dbg = (lambda m_: sys.stderr.write('[L %s %.1fs] %s\n' % (spec.name, time.time() - t0, m_))) if os.environ.get('VERIF_LDEBUG') else (lambda m_: None)
+            dbg('executed: %d paths' % len(info['paths']))
+            todo = []
+            todo_range = []
+            staged_range = set()
+            range_open = {}
             for stp, ret in info['paths']:
                 if isinstance(ret, tuple) and ret and ret[0] == 'unreachable':
                     r, _ = check(ctx, hyps + stp.pc, z3.BoolVal(False), budgets[-1], self.seed)
@@ -402,31 +412,97 @@ class L:
                 o = info['out'](stp)
                 OUT = z(value(ctx, o))
                 h = hyps + stp.pc
-                r, mdl = check(ctx, h, z3.And(OUT < p, OUT >= 0), budgets[-1], self.seed)
+                r, mdl = check(ctx, h, z3.And(OUT < p, OUT >= 0), max(budgets[0], 30000) if spec.op != 'div2' else budgets[-1], self.seed)
                 res_r.queries += 1
+                dbg('path %d range %s' % (npaths, r))
                 if r != 'unsat':
-                    status_r = 'sat' if r == 'sat' else ('inconclusive' if status_r != 'sat' else status_r)
-                    if r == 'sat':
-                        bad_models.append(mdl)
+                    range_open[npaths] = (h, OUT, r, mdl)
                 if spec.op == 'div2':
                     A = z(value(ctx, info['ins'][0]))
                     r, mdl = check(ctx, h, z3.Or(2 * OUT == A, 2 * OUT == A + p), budgets[-1], self.seed)
-                    n, d = 1, None
-                else:
-                    RHS = self.spec_rhs(spec, ctx, info, fc)
-                    r, d, n, mdl = prove_delta(ctx, h, OUT, RHS, p, spec.deltas, budgets, self.seed)
-                    if r == 'unsat' and not canary_ok:
+                    res_v.queries += 1
+                    if r == 'unsat':
+                        det_v.append('path %d: ok' % npaths)
+                    else:
+                        status_v = 'sat' if r == 'sat' else ('inconclusive' if status_v != 'sat' else status_v)
+                    continue
+                RHS = self.spec_rhs(spec, ctx, info, fc)
+                r, d, n, mdl = prove_delta(ctx, h, OUT, RHS, p, spec.deltas, budgets[:1], self.seed)
+                res_v.queries += n
+                dbg('path %d value quick %s' % (npaths, r))
+                if r == 'unsat':
+                    det_v.append('path %d: %d subtraction(s)' % (npaths, d))
+                    if npaths in range_open:
+                        todo_range.append((npaths, h, OUT, RHS))
+                    if d == 0 and H0 is None:
+                        H0 = o
+                    if not canary_ok:
                         rc_, _, nn, _ = prove_delta(ctx, h, OUT, RHS + RR, p, spec.deltas, [2000], self.seed)
                         res_v.queries += nn
                         if rc_ != 'unsat':
                             canary_ok = True
-                res_v.queries += n
-                if r == 'unsat':
-                    det_v.append('path %d: %s' % (npaths, ('%d subtraction(s)' % d) if d is not None else 'ok'))
                 else:
-                    status_v = 'sat' if r == 'sat' else ('inconclusive' if status_v != 'sat' else status_v)
+                    todo.append((npaths, h, OUT, RHS))
+            # global lemma for the staged proof, proven ONCE without any path condition:
+            #   (c*R + H)*R == RHS for some carry c in {0..cmax},  H = the un-subtracted result (same SSA terms on all paths)
+            # It is then added as a hypothesis to the per-path goals, which reduces them to linear reasoning about
+            # the conditional subtraction (the Montgomery identity is not re-derived under every path condition).
+            lemma = None
+            if False and (todo or todo_range) and H0 is not None:  # measured: not helpful on this encoding (see DESIGN 11.3)
+                Hv = z(value(ctx, H0))
+                cmax = len(info['prod'])
+                RHS0 = self.spec_rhs(spec, ctx, info, fc)
+                gl = z3.Or(*[(c_ * RR + Hv) * RR == RHS0 for c_ in range(cmax + 1)])
+                for bud_ in (30000, budgets[-1]):
+                    s2 = z3.Solver(); s2.set('timeout', bud_); s2.add(*ctx.relevant_back(hyps + [gl])); s2.add(*hyps); s2.add(z3.Not(gl))
+                    res_v.queries += 1
+                    rr2_ = s2.check()
+                    dbg('global lemma (budget %d): %s' % (bud_, rr2_))
+                    if rr2_ == z3.unsat:
+                        lemma = gl
+                        break
+                    if rr2_ == z3.sat:
+                        break
+            for pn, h, OUT, RHS, ronly in [x_ + (False,) for x_ in todo] + [x_ + (True,) for x_ in todo_range]:
+                r, d = 'unknown', None
+                if lemma is not None:
+                    if ronly:
+                        r_, _ = check(ctx, h + [lemma], z3.And(OUT < p, OUT >= 0), budgets[-1], self.seed)
+                        res_r.queries += 1
+                        dbg('path %d range with lemma: %s' % (pn, r_))
+                        if r_ == 'unsat':
+                            staged_range.add(pn)
+                    else:
+                        r, d, n, mdl = prove_delta(ctx, h + [lemma], OUT, RHS, p, spec.deltas, budgets, self.seed)
+                        res_v.queries += n
+                        dbg('path %d value with lemma: %s (%s)' % (pn, r, d))
+                        if r == 'unsat' and pn in range_open:
+                            r_, _ = check(ctx, h + [lemma], z3.And(OUT < p, OUT >= 0), budgets[-1], self.seed)
+                            res_r.queries += 1
+                            if r_ == 'unsat':
+                                staged_range.add(pn)
+                if ronly:
+                    continue
+                if r != 'unsat':
+                    r, d, n, mdl = prove_delta(ctx, h, OUT, RHS, p, spec.deltas, budgets[-1:], self.seed)
+                    res_v.queries += n
                     if r == 'sat':
                         bad_models.append(mdl)
+                if r == 'unsat':
+                    det_v.append('path %d: %d subtraction(s)%s' % (pn, d, ' [with the global lemma (c*R+H)*R = T + K*p]' if lemma is not None else ''))
+                else:
+                    status_v = 'sat' if r == 'sat' else ('inconclusive' if status_v != 'sat' else status_v)
+            # range goals left open by the short budget: settled by the staged proof (which includes 0 <= OUT < p), else
+            # retried with the long budget
+            for pn_, (h_, OUT_, r_, mdl_) in range_open.items():
+                if pn_ in staged_range:
+                    continue
+                r_, mdl_ = check(ctx, h_, z3.And(OUT_ < p, OUT_ >= 0), budgets[-1], self.seed)
+                res_r.queries += 1
+                if r_ != 'unsat':
+                    status_r = 'sat' if r_ == 'sat' else ('inconclusive' if status_r != 'sat' else status_r)
+                    if r_ == 'sat':
+                        bad_models.append(mdl_)
             res_r.status, res_v.status = status_r, status_v
             res_r.detail = ('%d paths, all canonical' % npaths) if status_r == 'proved' else 'range goal: ' + status_r
             res_v.detail = ('%d paths: %s' % (npaths, '; '.join(det_v))) if status_v == 'proved' else 'value goal: %s %s' % (status_v, '; '.join(det_v))
@@ -478,7 +554,7 @@ class L:
         fc = field_consts(self.consts, spec.which)
         p = fc['p']
         nat = self.native_name(spec)
-        t_end = time.time() + max(60, budget_ms / 1000.0 * 2)
+        t_end = time.time() + max(600, budget_ms / 1000.0 * 6)
         fixed_sets = [None]
         if spec.op == 'mul':
             fixed_sets = [{1: c} for c in self.candidates(spec, fc)]
@@ -519,8 +595,15 @@ class L:
                     else:
                         RHS = self.spec_rhs(spec, ctx, info, fc)
                         goal = z3.And((OUT * RR - RHS) % (p * RR) == 0, OUT < p)
-                    r, mdl = check(ctx, hyps + stp.pc, goal, min(budget_ms, 60000), self.seed)
-                    if r == 'sat':
+                    if time.time() > t_end:
+                        break
+                    # (1) an input violating the specification on this path (exact arithmetic); (2) failing that, ANY
+                    # input driving the execution down this path (path-coverage test generation): a defect confined
+                    # to one path - a missing carry case, a wrong comparison at a boundary - is wrong on all of it
+                    for goal_, bud in ((goal, min(budget_ms, 20000)), (z3.BoolVal(False), 10000)):
+                        r, mdl = check(ctx, hyps + stp.pc, goal_, bud, self.seed)
+                        if r != 'sat':
+                            continue
                         inputs = []
                         for v in info['ins']:
                             inputs.append(sum((x if isinstance(x, int) else mdl.eval(x, model_completion=True).as_long()) << (64 * i) for i, x in enumerate(v)))
